@@ -1,11 +1,175 @@
 import PestModel.Model.Json
-import PestModel.Model.Ref
+import PestModel.Model.RefSpec
 import PestModel.Gen.JsonGrammar
-/-! # C18 — placeholder until the theorems land. -/
-namespace PestModel.C18
-open PestModel.Json
+import PestModel.Lemmas.JsonRfc
+import PestModel.Lemmas.JsonTop
+/-!
+# C18 — the bundled JSON grammar accepts exactly RFC 8259 JSON
 
-/-- the RFC transcription on a small document. -/
-theorem smoke : (jsonText "[1]".toList).isSome = true := by decide
+`PestModel.Gen.Json.rules` is REGENERATED from `grammars/src/grammars/json.pest` on every run;
+`PestModel.Json.jsonText` is the transcription of RFC 8259's ABNF (with the document tree).
+Meaning of the grammar = the reference denotation (`PestModel.Ref`), to which the real pipeline is
+tied by C01/C05/C14.
+
+Proof outline (`PestModel/Lemmas/Json*.lean`): the fuel-free semantics `valCa` of the reference
+denotation is computed rule by rule at a cursor of the input and shown EQUAL to the RFC recogniser:
+`skip_at` (implicit whitespace = `ws`), `number_call`, `string_call`, `bool_call`/`null_call`,
+`pair_call`, `struct_all` (value / object / array by induction on the RFC fuel, with a bound that
+`jsonText`'s fuel `4 * (length + 1)` satisfies), `json_val` (the top rule). Soundness, completeness
+and definite rejection are the three readings of that one equation.
+-/
+namespace PestModel.C18
+open PestModel.Json PestModel.Ref PestModel.G
+open PestModel.LineCol (Str)
+open PestModel.PS (CharSet)
+
+/-- rule id of a label of the RFC tree (`EOI` = number of rules). -/
+def ruleId (label : String) : Nat :=
+  match PestModel.Gen.Json.rules.findIdx? (·.name = label) with
+  | some i => i
+  | none => PestModel.Gen.Json.rules.length
+
+/-- the RFC document tree as a pest token tree. -/
+def toTree : JTree → PestModel.Views.Tree
+  | .node l a b ks => .node (ruleId l) a b none (ks.attach.map fun ⟨k, _⟩ => toTree k)
+termination_by t => sizeOf t
+decreasing_by all_goals simp_wf; (try have := List.sizeOf_lt_of_mem ‹_›); omega
+
+/-! ### glue: `toTree` is the translation used in the lemma files; fuel -/
+
+theorem ruleId_eq (l : String) : ruleId l = ruleIdx l := rfl
+
+theorem toTree_eq_aux (n : Nat) : ∀ t : JTree, sizeOf t ≤ n → toTree t = JT t := by
+  induction n with
+  | zero =>
+    intro t h
+    cases t
+    simp at h
+  | succ n ih =>
+    intro t h
+    cases t with
+    | node l a b ks =>
+      rw [toTree, JT_node, ruleId_eq]
+      congr 1
+      apply List.ext_getElem
+      · simp
+      · intro i h1 h2
+        simp only [List.getElem_map, List.getElem_attach]
+        apply ih
+        have hm : ks[i]'(by simpa using h2) ∈ ks := List.getElem_mem _
+        have := List.sizeOf_lt_of_mem hm
+        simp at h
+        omega
+
+theorem toTree_eq (t : JTree) : toTree t = JT t := toTree_eq_aux _ t (Nat.le_refl _)
+
+theorem meaning_eq (uni : String → Option CharSet) (fuel : Nat) (input : Str) :
+    meaning PestModel.Gen.Json.rules false uni fuel "json" input =
+      call (jctx input uni) fuel .nonAtomic false "json" ⟨0, []⟩ := rfl
+
+/-! ### the layers (each is an equation between the grammar's denotation at an arbitrary position of
+the input — `restAt input c.pos = some c.rest` — and the RFC recogniser; `∃ fuel` + a definite
+right-hand side means: for every larger fuel too, by `denote_fuel_mono`) -/
+
+/-- implicit whitespace of non-atomic rules = RFC `ws`. -/
+theorem ws_iff (uni : String → Option CharSet) (input : Str) (c : Cur) (stk : List Str) (la : Bool)
+    (h : PestModel.PS.restAt input c.pos = some c.rest) :
+    ∃ fuel, skipWs (jctx input uni) fuel .nonAtomic la ⟨c.pos, stk⟩ =
+      .ok ⟨(ws c.rest.length c).pos, stk⟩ [] := by
+  obtain ⟨N, hN⟩ := (lev_conv (jctx input uni)).k .nonAtomic la ⟨c.pos, stk⟩
+  refine ⟨N, ?_⟩
+  have := hN N (Nat.le_refl _)
+  simp only [lev] at this
+  rw [this, ws_eq _ c (Nat.le_refl _)]
+  exact skip_at (uni := uni) (show At input c from h) la stk
+
+/-- rule `number` = RFC `number`, with the same leaf. -/
+theorem number_iff (uni : String → Option CharSet) (input : Str) (c : Cur) (stk : List Str)
+    (h : PestModel.PS.restAt input c.pos = some c.rest) :
+    ∃ fuel, call (jctx input uni) fuel .nonAtomic false "number" ⟨c.pos, stk⟩ =
+      match number c with
+      | some (t, c') => .ok ⟨c'.pos, stk⟩ [toTree t]
+      | none => .fail := by
+  obtain ⟨n, hn⟩ := exists_call (jctx input uni) .nonAtomic false "number" ⟨c.pos, stk⟩
+  refine ⟨n, ?_⟩
+  rw [hn, number_call (show At input c from h)]
+  cases number c with
+  | none => rfl
+  | some p => obtain ⟨t, c'⟩ := p; simp only [toTree_eq]
+
+/-- rule `string` = RFC `string`, with the same leaf. -/
+theorem string_iff (uni : String → Option CharSet) (input : Str) (c : Cur) (stk : List Str)
+    (h : PestModel.PS.restAt input c.pos = some c.rest) :
+    ∃ fuel, call (jctx input uni) fuel .nonAtomic false "string" ⟨c.pos, stk⟩ =
+      match string c with
+      | some (t, c') => .ok ⟨c'.pos, stk⟩ [toTree t]
+      | none => .fail := by
+  obtain ⟨n, hn⟩ := exists_call (jctx input uni) .nonAtomic false "string" ⟨c.pos, stk⟩
+  refine ⟨n, ?_⟩
+  rw [hn, string_call (show At input c from h)]
+  cases string c with
+  | none => rfl
+  | some p => obtain ⟨t, c'⟩ := p; simp only [toTree_eq]
+
+/-- rule `value` = RFC `value` (given RFC fuel for the rest of the input), with the same tree. -/
+theorem value_iff (uni : String → Option CharSet) (input : Str) (c : Cur) (stk : List Str) (f : Nat)
+    (h : PestModel.PS.restAt input c.pos = some c.rest) (hf : 3 * c.rest.length + 1 ≤ f) :
+    ∃ fuel, call (jctx input uni) fuel .nonAtomic false "value" ⟨c.pos, stk⟩ =
+      match value f c with
+      | some (t, c') => .ok ⟨c'.pos, stk⟩ [toTree t]
+      | none => .fail := by
+  obtain ⟨n, hn⟩ := exists_call (jctx input uni) .nonAtomic false "value" ⟨c.pos, stk⟩
+  refine ⟨n, ?_⟩
+  rw [hn, value_call (show At input c from h) stk f hf]
+  cases value f c with
+  | none => rfl
+  | some p => obtain ⟨t, c'⟩ := p; simp only [vRes_some, toTree_eq]
+
+/-- the whole parse: the definite result of rule `json` is `jsonText`'s. -/
+theorem json_iff (uni : String → Option CharSet) (input : Str) :
+    ∃ fuel, meaning PestModel.Gen.Json.rules false uni fuel "json" input =
+      match jsonText input with
+      | some t => .ok ⟨PestModel.LineCol.bLen input, []⟩ [toTree t]
+      | none => .fail := by
+  obtain ⟨n, hn⟩ := exists_call (jctx input uni) .nonAtomic false "json" ⟨0, []⟩
+  refine ⟨n, ?_⟩
+  rw [meaning_eq, hn, json_val, jRes]
+  cases jsonText input with
+  | none => rfl
+  | some t => simp only [toTree_eq]
+
+/-! ### the three theorems -/
+
+/-- **Soundness**: whatever the grammar accepts (as the whole input, from rule `json`) is an RFC 8259
+JSON text, and the pairs are exactly the RFC document tree with its byte spans. -/
+theorem json_sound (uni : String → Option CharSet) (fuel : Nat) (input : Str) (s : St)
+    (f : List PestModel.Views.Tree)
+    (h : meaning PestModel.Gen.Json.rules false uni fuel "json" input = .ok s f) :
+    ∃ t, jsonText input = some t ∧ f = [toTree t] := by
+  rw [meaning_eq] at h
+  have hv := valCa_of_call h (by simp)
+  rw [json_val, jRes] at hv
+  cases ht : jsonText input with
+  | none => rw [ht] at hv; simp at hv
+  | some t =>
+    rw [ht] at hv
+    simp only [Res.ok.injEq] at hv
+    exact ⟨t, rfl, by rw [← hv.2, toTree_eq]⟩
+
+/-- **Completeness**: every RFC 8259 JSON text (with optional surrounding whitespace) is accepted,
+consuming all input, with exactly the RFC document tree — for every nesting depth and length. -/
+theorem json_complete (uni : String → Option CharSet) (input : Str) (t : JTree)
+    (h : jsonText input = some t) :
+    ∃ fuel s, meaning PestModel.Gen.Json.rules false uni fuel "json" input = .ok s [toTree t] := by
+  obtain ⟨n, hn⟩ := json_iff uni input
+  rw [h] at hn
+  exact ⟨n, _, hn⟩
+
+/-- rejection is definite: on a non-JSON text the grammar fails (it does not get stuck or diverge). -/
+theorem json_rejects (uni : String → Option CharSet) (input : Str) (h : jsonText input = none) :
+    ∃ fuel, meaning PestModel.Gen.Json.rules false uni fuel "json" input = .fail := by
+  obtain ⟨n, hn⟩ := json_iff uni input
+  rw [h] at hn
+  exact ⟨n, hn⟩
 
 end PestModel.C18
